@@ -82,6 +82,18 @@ type E1List struct {
 	Arr   [2]E1Item
 }
 
+// by value: structs handed to the encoder as values, not pointers (the encoder makes its own addressable copy)
+type F1One struct{ V int }
+type F1Two struct {
+	A int
+	B string
+}
+type F1Holder struct {
+	One  F1One
+	Two  F1Two
+	Ones []F1One
+}
+
 type c14family struct {
 	name string
 	mk   func(n int) interface{} // a value (pointer to struct) parameterised by n
@@ -109,6 +121,11 @@ var c14Families = []c14family{
 		it := &E1Item{K: "only", V: float64(n)}
 		return &E1List{Items: []E1Item{{"a", 1}, {"b", float64(n)}}, Ptrs: []*E1Item{it, it}, M: map[string]*E1Item{"k": it}, Arr: [2]E1Item{{"x", 1}, {"y", 2}}}
 	}, func() interface{} { return new(*E1List) }},
+	{"by-value-one", func(n int) interface{} { return F1One{V: n} }, func() interface{} { return new(F1One) }},
+	{"by-value-two", func(n int) interface{} { return F1Two{A: n, B: fmt.Sprint("b", n)} }, func() interface{} { return new(F1Two) }},
+	{"by-value-holder", func(n int) interface{} {
+		return F1Holder{One: F1One{n}, Two: F1Two{n + 1, "t"}, Ones: []F1One{{n}, {n + 2}}}
+	}, func() interface{} { return new(F1Holder) }},
 }
 
 type c14op struct {
@@ -331,6 +348,7 @@ func c14Pool(r *Run) {
 	// one service and one client codec shared by all tasks: their codecs take decoders and encoders from the pools
 	svc := core.NewService()
 	svc.AddFunction(func(x int, s string) string { return fmt.Sprintf("%s/%d", s, x*2) }, "tag")
+	svc.AddFunction(func(a, b string) string { return a + "+" + b }, "same2")
 	// (a service context belongs to one request)
 	newSvcCtx := func() context.Context { return core.WithContext(context.Background(), core.NewServiceContext(svc)) }
 	ccl := core.NewClient("mock://c14shared")
@@ -352,6 +370,60 @@ func c14Pool(r *Run) {
 			cc.Init(ccl)
 			res, err := ccl.Codec.Decode(bad, cc)
 			p.out = fmt.Sprintf("%#v %v", res, err != nil)
+		case "service-simple-request":
+			// what a client configured for simple mode sends: a header saying so, which switches the pooled decoder
+			// that reads the request into simple mode for that one use
+			scl := core.NewClient("mock://c14simple")
+			scl.Codec = core.NewClientCodec(core.WithSimple(true))
+			cc := core.NewClientContext()
+			cc.Init(scl)
+			req, err := scl.Codec.Encode("tag", []interface{}{p.arg, "simple"}, cc)
+			if err != nil || !strings.Contains(string(req), "simple") {
+				p.out = fmt.Sprintf("harness: request %q %v", req, err)
+				return
+			}
+			resp, err := svc.Handle(newSvcCtx(), append([]byte(nil), req...))
+			p.out = fmt.Sprintf("%q %v", resp, err)
+		case "client-simple-response":
+			ssvc := core.NewService()
+			ssvc.Codec = core.NewServiceCodec(core.WithSimple(true))
+			sc := core.NewServiceContext(ssvc)
+			resp, err := ssvc.Codec.Encode([]string{"one", "two"}, sc)
+			if err != nil {
+				p.out = fmt.Sprint("harness: ", err)
+				return
+			}
+			cc := core.NewClientContext()
+			cc.Init(ccl)
+			cc.ReturnType = []reflect.Type{reflect.TypeOf([]string(nil))}
+			res, err := ccl.Codec.Decode(append([]byte(nil), resp...), cc)
+			p.out = fmt.Sprintf("%q %#v %v", resp, res, err)
+		case "service-request-with-references":
+			// a request in which a repeated value travels as a reference (what a default, reference-mode client sends):
+			// the codec takes a pooled decoder as it comes and relies on its being in reference mode
+			cc := core.NewClientContext()
+			cc.Init(ccl)
+			dup := fmt.Sprintf("dup%03d", p.arg)
+			req, err := ccl.Codec.Encode("same2", []interface{}{dup, dup}, cc)
+			if err != nil || !strings.Contains(string(req), "r") {
+				p.out = fmt.Sprintf("harness: request %q %v", req, err)
+				return
+			}
+			resp, err := svc.Handle(newSvcCtx(), append([]byte(nil), req...))
+			p.out = fmt.Sprintf("%q %v", resp, err)
+		case "client-response-with-references":
+			sc := core.NewServiceContext(svc)
+			dup := fmt.Sprintf("res%03d", p.arg)
+			resp, err := svc.Codec.Encode([]string{dup, dup, dup}, sc)
+			if err != nil {
+				p.out = fmt.Sprint("harness: ", err)
+				return
+			}
+			cc := core.NewClientContext()
+			cc.Init(ccl)
+			cc.ReturnType = []reflect.Type{reflect.TypeOf([]string(nil))}
+			res, err := ccl.Codec.Decode(append([]byte(nil), resp...), cc)
+			p.out = fmt.Sprintf("%#v %v", res, err)
 		case "client-good-response":
 			cc := core.NewClientContext()
 			cc.Init(ccl)
@@ -423,7 +495,8 @@ func c14Pool(r *Run) {
 	}
 	kinds := []string{"marshal-simple", "marshal-ref", "unmarshal-bad", "unmarshal-good", "unmarshal-ref", "unmarshal-longtype", "decoder-reuse",
 		"codec-with-all-options", "probe-defaults", "probe-defaults",
-		"service-bad-request", "service-good-request", "service-good-request", "client-bad-response", "client-good-response"}
+		"service-bad-request", "service-good-request", "service-good-request", "client-bad-response", "client-good-response",
+		"service-request-with-references", "client-response-with-references", "service-simple-request", "client-simple-response"}
 	var all []*pop
 	fin := 0
 	for t := 0; t < ntasks; t++ {
@@ -456,6 +529,21 @@ func c14Pool(r *Run) {
 	}
 	sim.Stop()
 	for _, p := range all {
+		// these two have a known right answer: the comparison with "the same call alone" below runs on the same
+		// pools and would be fooled by a decoder that came back from an earlier use in the wrong mode
+		want := ""
+		switch p.kind {
+		case "service-request-with-references":
+			d := fmt.Sprintf("dup%03d", p.arg)
+			want = fmt.Sprintf("%q %v", []byte(fmt.Sprintf(`Rs%d"%s+%s"z`, 2*len(d)+1, d, d)), nil)
+		case "client-response-with-references":
+			d := fmt.Sprintf("res%03d", p.arg)
+			want = fmt.Sprintf("%#v %v", []interface{}{[]string{d, d, d}}, nil)
+		}
+		if want != "" && p.out != want {
+			r.Fail("C14:pooled-coder-state-leaks:"+p.kind, "%s(%d) returned %s, expected %s", p.kind, p.arg, p.out, want)
+			return
+		}
 		ref := &pop{kind: p.kind, arg: p.arg}
 		run(ref)
 		if p.out != ref.out {
